@@ -18,5 +18,13 @@ def run(chk):
         if r["e"] == "cmd":
             r["cmd"] = [str(x) for x in r["cmd"]]      # one type per sequence for TLC
         return True
-    eg.standard_run(chk, "C03", ["fanout", "collect", "wait", "routing"],
-                    {"pub", "cmd", "tick", "step_start", "quiet"}, nontrivial=nontrivial, keep=keep)
+    from harness.programs import scenarios as sc
+    items = eg.collect(chk, ["fanout", "collect", "wait", "routing"])
+    # serialise/resume points: a resumed run starts what was running or queued at the snapshot again, each step up to its
+    # worker limit (the quiescence records of the resumed run are judged like those of the first)
+    items += eg.collect_resumed(chk, [("fanout(2,3)", sc.fanout(2, 3, None, 0, 0), []),
+                                      ("fanout(3,3)", sc.fanout(3, 3, None, 0, 0), []),
+                                      ("fanout(2,4,retry)", sc.fanout(2, 4, 2, 1, 1), []),
+                                      ("overlap(1,2,2)", sc.overlap(1, 2, 2), [])], paths_q=4)
+    eg.standard_run(chk, "C03", None, {"pub", "cmd", "tick", "step_start", "quiet"}, nontrivial=nontrivial, keep=keep,
+                    items=items)
